@@ -189,6 +189,14 @@ example :
       (CS.init (LQ.new .q 0 0)) [.popCall 1 false, .popCall 2 true, .add 7 0, .resume 2, .resume 1]
       = some ⟨LQ.new .q 0 0, [(1, false)], [], [(2, .val 7)], [7]⟩ := by decide
 
+/-- the window between a wake-up and the woken consumer's re-acquisition of the lock is part of the system: two
+    consumers parked on the (repaired) SyncQueue, `Push` signals one, `Close` arrives before it resumes, and the
+    broadcast releases the other one too — the run the harness drives with `atomic add 1 ; close` -/
+example :
+    (lts ⟨.syncq, Shape.expected, SyncShape.expected, ⟨.signal, .signal, .broadcast, .none⟩⟩ (LQ.new .syncq 0 0)).run
+      (CS.init (LQ.new .syncq 0 0)) [.popCall 1 false, .popCall 2 false, .add 7 1, .close 0, .resume 1, .resume 2]
+      = some ⟨closeQ (LQ.new .syncq 0 0), [], [], [(2, .nil), (1, .val 7)], [7]⟩ := by decide
+
 /-- a reachable PriQueue state satisfying the hypotheses of `priq_waitch_readable` -/
 example : (plts PriShape.expected ⟨true, true⟩ 3).run (PS.init 3)
       [.pushLock 1 0, .pushSignal, .pushLock 2 5, .pushSignal, .recv, .popLock true, .popSignal]
